@@ -53,6 +53,14 @@ def candidates(case):
         if 'attrs2' in case:
             new['attrs2'] = {k: dict(v) for k, v in case['attrs2'].items()}
         return new
+    # edits between the two runs of a re-run case
+    for sid, attrs in (case.get('attrs2') or {}).items():
+        for key in ('drop', 'new'):
+            items = attrs.get(key) or []
+            for k in range(len(items)):
+                new = variant()
+                new['attrs2'][sid][key] = items[:k] + items[k + 1:]
+                yield new
     # delete members (deep schedulers first)
     for path in sorted(paths, key=len, reverse=True):
         sched = _at(spec, path)
@@ -89,7 +97,9 @@ def candidates(case):
                              ('critical', False), ('sd_timeout', 1.0),
                              ('build', 'ctor'), ('late_attrs', None),
                              ('watch', None), ('label', 'x'),
-                             ('ctor_attrs', None), ('crit_method', None)):
+                             ('ctor_attrs', None), ('crit_method', None),
+                             ('req_shape', None), ('crit_late', None),
+                             ('odd_len', None)):
             if sched.get(key) != neutral:
                 new = variant()
                 _at(new['spec'], path)[key] = neutral
@@ -108,7 +118,9 @@ def candidates(case):
                                  ('cleanup_outcome', None),
                                  ('exc_noargs', None), ('exc_base', None),
                                  ('exc_type', None), ('label', 'x'),
-                                 ('crit_method', None),
+                                 ('crit_method', None), ('falsy', None),
+                                 ('ret_awaitable', None),
+                                 ('req_shape', None),
                                  ('handler_absorbs', None),
                                  ('forever', False), ('critical', False),
                                  ('outcome', 'ret'), ('cls', 'abstract')):
